@@ -49,6 +49,8 @@ func (f *Export) Call(s *slip.Scope, args slip.List, depth int) slip.Object {
 		p.Export(string(ta))
 	case slip.String:
 		p.Export(string(ta))
+	case nil:
+		// the empty list of symbols
 	case slip.List:
 		for _, v := range ta {
 			switch tv := v.(type) {
